@@ -352,6 +352,9 @@ CreateEnd ==
 \* EVENT procInit(p): PrepareComponents creates every NON-lazy user post-processor through the factory (its
 \* lifecycle runs once, before any ordinary component is refreshed); a LazyInit post-processor that no eager
 \* component needs is registered but never initialised.
+\* The action is the whole creation of the post-processor: its dependency (a plain component outside the graph) is created
+\* and initialised, its own wire / value points are populated, then its Init runs - the event carries `populated` and
+\* `depInited`, which the trace action requires to be TRUE.
 NothingCreatedYet == stack = <<>> /\ status = "refresh" /\ queue = InitQueue(sc) /\ \A n \in Node : phase[n] = "new"
 ProcInit(p) ==
   /\ p \in 1..Len(sc.procs) /\ ~sc.procs[p] /\ pinit[p] = 0 /\ NothingCreatedYet
